@@ -93,6 +93,28 @@ Definition check_roundtrip (L : layout) (reloaded : res layout) : bool :=
    constructor *)
 Definition check_accepted_wf (L : layout) : bool := for_layout_ok L.
 
+(* C13's observation of a load: defined for inputs of the shorthand language
+   (the model parser accepts them); an accepted layout must be the expansion
+   (the final duplicate-key rejection is C14's business, not C13's), a rejected
+   input must be one whose expansion is an error.  Panics are C14's. *)
+Definition expand_obs_ok (pf : res fancy_layout) (core full : fancy_layout -> res layout) (real : res layout) : bool :=
+  match pf with
+  | Ok f =>
+    match real with
+    | Ok L => outcome_eqb (core f) (Ok L)
+    | Err => match full f with Ok _ => false | _ => true end
+    | Panic _ => true
+    end
+  | _ => true
+  end.
+
 (* C13.expand: the real loader's answer on [j] against the specification *)
 Definition spec_load (j : json) : res layout := f <- parse_layout j ;; expand f.
-Definition check_expand (j : json) (real : res layout) : bool := outcome_eqb (spec_load j) real.
+Definition check_expand (j : json) (real : res layout) : bool :=
+  expand_obs_ok (parse_layout j) expand_core expand real.
+
+(* observation class EXPAND: the same observation, model against implementation *)
+Definition model_expand_agrees (j : json) (real : res layout) : bool :=
+  expand_obs_ok (parse_layout j) convert_core convert real.
+
+Definition is_panic_outcome (r : res layout) : bool := match r with Panic _ => true | _ => false end.
